@@ -643,7 +643,7 @@ fn keys_mode() {
     emit(
         true,
         "poolcount usize_alloc",
-        &format!("{}", cnt),
+        if cnt.is_u64() { "count" } else { "instances" },
         Some(if cnt.is_u64() { Ok(()) } else { Err(format!("pool is not serialised as a count: {}", cnt)) }),
     );
     let sg: SG = cfg.build().into();
